@@ -645,6 +645,16 @@ def polyval(p, x):
     return _np.polyval(p, x)
 
 
+def eye(N, M=None, k=0, dtype=float, **kw):
+    if not core.active():
+        return _np.eye(N, M, k, dtype=dtype, **kw)
+    dt, symbolic = _resolve_dtype(dtype)
+    r = _np.eye(N, M, k, dtype=dt, **kw)
+    if r.dtype.kind == 'f' and (symbolic or _mode() == 'exact'):
+        return to_exact(r)
+    return r
+
+
 def _passthrough_float(name):
     """numpy constructors whose float results must become exact in exact mode."""
     realf = getattr(_np, name)
@@ -1091,7 +1101,7 @@ _OVER = {
     'floor': floor, 'ceil': ceil, 'sqrt': sqrt, 'absolute': absolute, 'abs': absolute, 'fabs': fabs,
     'isfinite': isfinite, 'isnan': isnan, 'arctan2': arctan2, 'minimum': minimum, 'maximum': maximum,
     'fmod': fmod, 'where': where, 'interp': interp, 'median': median, 'polyval': polyval,
-    'std': std, 'var': var, 'mean': mean,
+    'std': std, 'var': var, 'mean': mean, 'eye': eye,
 }
 for _n in _TRANS:
     _OVER[_n] = _transcendental(_n)
